@@ -231,31 +231,9 @@ func judge(cr callResult, textLen, B int) (string, string) {
 	return "", ""
 }
 
-// panicSite names the function that panicked: the first frame below the runtime's panic machinery.
-func panicSite(stack string) string { return panicSiteFrom(stack, false) }
+func panicSite(stack string) string { return simrt.PanicSite(stack, false) }
 
-// panicSiteFrom: a crash dump of a dying process starts at the failing function (seenPanic preset).
-func panicSiteFrom(stack string, seenPanic bool) string {
-	lines := strings.Split(stack, "\n")
-	for _, l := range lines {
-		if strings.HasPrefix(l, "\t") || strings.HasPrefix(l, "goroutine ") || l == "" {
-			continue
-		}
-		fn := l
-		if i := strings.LastIndex(fn, "("); i > 0 {
-			fn = fn[:i]
-		}
-		if strings.HasPrefix(fn, "panic") {
-			seenPanic = true
-			continue
-		}
-		if !seenPanic || strings.HasPrefix(fn, "runtime.") || strings.HasPrefix(fn, "runtime/") {
-			continue
-		}
-		return fn
-	}
-	return "unknown"
-}
+func panicSiteFrom(stack string, seenPanic bool) string { return simrt.PanicSite(stack, seenPanic) }
 
 // knownFinding maps a violation class to a listed known finding by the call site that fails.
 func knownFinding(x *simrt.Ctx, class string) string {
